@@ -2,7 +2,7 @@
     checker.  One case = one settled step (a write on X's database j, a replication of
     database j from another instance, a load of database j) on an instance X that has k
     databases open, with everything observed about ALL k databases before and after. *)
-From Orbit Require Export Corr.Common Model.Instance Model.Current.
+From Orbit Require Export Corr.Common Model.Instance Model.Joins Model.Current.
 
 (** The mechanisms as /repo stands (move to Model/Current.v when the fix is merged):
     every store's write listener reacts to the write events of all stores of the instance,
@@ -47,7 +47,11 @@ Inductive case :=
    had arrived there: replication progress and maximum, number of entries, number of
    load/replication events of the new database (every store of the instance model starts
    untouched, whatever messages for other addresses the instance has seen) *)
-| CFresh (progress max : Z) (entries events : nat).
+| CFresh (progress max : Z) (entries events : nat)
+(* a peer opened the databases [joined] of an instance whose k databases had the [heads]
+   (database, head); [sent] = the head-exchange messages the instance sent to that peer over the
+   direct channel: (index of the address in the message, heads) *)
+| CJoins (k : nat) (heads : list (nat * N)) (joined : list nat) (sent : list (nat * list N)).
 
 Definition cop_target (op : cop) : nat :=
   match op with OWrite j _ _ | OSync j _ | OLoad j => j end.
@@ -143,6 +147,17 @@ Definition check (c : case) : bool * bool :=
   | CFresh progress max entries events =>
     let ok := (progress =? 0)%Z && (max =? 0)%Z && Nat.eqb entries 0 && Nat.eqb events 0 in
     (ok, ok)
+  | CJoins k heads joined sent =>
+    let ops := map (fun x => JWrite (fst x) (snd x)) heads ++ map (fun j => JJoin j 1) joined in
+    let nonempty := fun m : nat * list N => negb (match snd m with [] => true | _ => false end) in
+    let dm_eqb := fun a b : nat * list N => Nat.eqb (fst a) (fst b) && list_eqb N.eqb (snd a) (snd b) in
+    let model := filter nonempty (map (fun m : dmsg => (snd (fst m), snd m))
+                                      (j_sent (jrun c09_join_own_topic_current ops (jinit k)))) in
+    let obs := filter nonempty sent in
+    (* (messages without heads are not compared: whether an empty exchange is sent at all is
+       not the model's business; repeated exchanges count once) *)
+    (forallb (fun m => existsb (dm_eqb m) model) obs && forallb (fun m => existsb (dm_eqb m) obs) model,
+     forallb (fun m => existsb (Nat.eqb (fst m)) joined) obs)
   end.
 
 Definition failures (base : nat) (cs : list case) := failures_from check base cs.
